@@ -403,12 +403,12 @@ Proof. intros a b H. apply Forall_app in H. tauto. Qed.
 (* the loop of dd_nested_name over a run of <source-name> components *)
 Lemma nested_comps : forall comps k p o lv fnm rest,
   At p (srcs comps ++ rest) -> Forall (fun id => ident_okb id = true) comps ->
-  no_dollar (srcs comps ++ rest) -> L <= INT_MAX -> hd0 rest <> 66 -> hd0 rest <> 69 ->
+  no_dollar (srcs comps ++ rest) -> L <= INT_MAX -> hd0 rest <> 66 ->
   run s 0 (List.length comps + S k) (LNested 0) (NS p o lv fnm) =
   run s 0 (S k) (LNested 0)
     (NS (p + Z.of_nat (List.length (srcs comps))) (out_after o fnm comps) lv (fnm_after fnm comps)).
 Proof.
-  induction comps as [| id cs IH]; intros k p o lv fnm rest H Hok Hnd HL HB HE.
+  induction comps as [| id cs IH]; intros k p o lv fnm rest H Hok Hnd HL HB.
   - cbn [List.length srcs List.concat map app out_after fnm_after Nat.add]. replace (p + Z.of_nat 0) with p by lia.
     reflexivity.
   - inversion Hok as [| ? ? Hid Hcs]; subst.
@@ -445,3 +445,520 @@ Proof.
     + apply At_src_tail. exact H.
     + rewrite <- E in Hnd. eapply no_dollar_app_r. exact Hnd.
 Qed.
+
+(* ---- the three ways a nested name ends *)
+Lemma nested_end_plain : forall k p o lv fnm rest,
+  At p (69 :: rest) ->
+  run s 0 (S k) (LNested 0) (NS p o lv fnm) = R 0 (NS p o lv fnm).
+Proof.
+  intros k p o lv fnm rest H. cbn [run body]. unfold nested_loop, NS.
+  erewrite bind_R; [| apply (curr_at _ (69 :: rest)); [ exact H | reflexivity ] ].
+  rewrite bind_eof. stsimpl. pose proof (At_lt _ _ _ H). rwf (p >=? L). cbn [hd0]. chs. reflexivity.
+Qed.
+
+(* text after the last ':' of the output so far (strrchr(dd->new, ':') + 1, or dd->new) *)
+Definition last_segment (o : list Z) : list Z :=
+  match rindex_of (ch ":") o 0 None with
+  | Some i => skipn (Z.to_nat (i + 1)) o
+  | None => o
+  end.
+
+Lemma ctor_dtor_at : forall k p x lv c kd rest,
+  At p (c :: kd :: 69 :: rest) -> (c = 67 \/ c = 68) -> isdigit kd = true ->
+  run s 0 (S k) FCtorDtor (NS p (Some x) lv false) =
+  R 0 (NS (p + 2) (Some (x ++ (if c =? 67 then str "::" else str "::~") ++ last_segment x)) lv false).
+Proof.
+  intros k p x lv c kd rest H Hc Hk. cbn [run body]. unfold dd_ctor_dtor_name, NS.
+  pose proof (At_cons _ _ _ H) as H1. pose proof (At_cons _ _ _ H1) as H2.
+  replace (p + 1 + 1) with (p + 2) in H2 by lia.
+  pose proof (At_lt _ _ _ H). pose proof (At_lt _ _ _ H1). pose proof (At_lt _ _ _ H2).
+  unfold consume.
+  erewrite bind_R; [| apply (consume_n_at _ 1 (c :: kd :: 69 :: rest)); [ exact H | reflexivity | cbn [List.length]; lia ] ].
+  stsimpl.
+  erewrite bind_R; [| apply (consume_n_at _ 1 (kd :: 69 :: rest)); [ exact H1 | reflexivity | cbn [List.length]; lia ] ].
+  stsimpl. replace (p + 1 + 1) with (p + 2) by lia.
+  rewrite bind_eof. stsimpl. rwf (p + 2 >=? L). cbn [hd0 Z.eqb]. chs.
+  assert (Hcc : (negb (c =? 67) && negb (c =? 68)) = false) by (destruct Hc; subst; reflexivity).
+  rewrite Hcc.
+  pose proof (isdigit_range kd Hk). rwf (kd =? 73). rewrite Hk. cbn [negb].
+  rewrite bind_ret, bind_gets. stsimpl. cbn [Z.eqb negb]. reflexivity.
+Qed.
+
+Lemma nested_end_ctor : forall k p x lv c kd rest,
+  At p (c :: kd :: 69 :: rest) -> (c = 67 \/ c = 68) -> isdigit kd = true ->
+  run s 0 (S (S k)) (LNested 0) (NS p (Some x) lv false) =
+  R 0 (NS (p + 2) (Some (x ++ (if c =? 67 then str "::" else str "::~") ++ last_segment x)) lv false).
+Proof.
+  intros k p x lv c kd rest H Hc Hk.
+  change (run s 0 (S (S k)) (LNested 0)) with (nested_loop s 0 (run s 0 (S k)) 0).
+  unfold nested_loop. unfold NS at 1.
+  erewrite bind_R; [| apply (curr_at _ (c :: kd :: 69 :: rest)); [ exact H | reflexivity ] ].
+  rewrite bind_eof. stsimpl. pose proof (At_lt _ _ _ H). rwf (p >=? L). cbn [hd0]. chs. cbn [Z.eqb].
+  assert (Hc69 : (c =? 69) = false) by (destruct Hc; subst; reflexivity). rewrite Hc69. cbn [orb negb].
+  erewrite bind_R; [| apply (peek1_at _ c (kd :: 69 :: rest)); [ exact H | reflexivity ] ].
+  cbn [hd0]. pose proof (isdigit_range kd Hk).
+  rwf (kd =? 84). rwf (kd =? 116). cbn [orb]. rewrite andb_false_r.
+  assert (Hcd : ((c =? 67) || (c =? 68)) = true) by (destruct Hc; subst; reflexivity). rewrite Hcd.
+  fold (NS p (Some x) lv false).
+  erewrite bind_R; [| apply (ctor_dtor_at k p x lv c kd rest); assumption ].
+  apply (nested_end_plain k _ _ lv false rest).
+  pose proof (At_cons _ _ _ (At_cons _ _ _ H)) as H2. replace (p + 1 + 1) with (p + 2) in H2 by lia. exact H2.
+Qed.
+
+Definition op_okb (c0 c1 : Z) : bool :=
+  islower c0 && negb ((c0 =? ch "c") && (c1 =? ch "v")) && negb ((c0 =? ch "l") && (c1 =? ch "i")).
+
+Lemma operator_at : forall k p x lv c0 c1 nm rest,
+  At p (c0 :: c1 :: 69 :: rest) -> find_op ops c0 c1 = Some nm -> op_okb c0 c1 = true ->
+  run s 0 (S k) FOperatorName (NS p (Some x) lv false) =
+  R 0 (NS (p + 2) (Some (((x ++ str "::") ++ str "operator") ++ nm)) lv false).
+Proof.
+  intros k p x lv c0 c1 nm rest H Hop Hok. cbn [run body]. unfold dd_operator_name, NS.
+  pose proof (At_cons _ _ _ H) as H1. pose proof (At_cons _ _ _ H1) as H2.
+  replace (p + 1 + 1) with (p + 2) in H2 by lia.
+  pose proof (At_lt _ _ _ H). pose proof (At_lt _ _ _ H1). pose proof (At_lt _ _ _ H2).
+  unfold consume.
+  erewrite bind_R; [| apply (consume_n_at _ 1 (c0 :: c1 :: 69 :: rest)); [ exact H | reflexivity | cbn [List.length]; lia ] ].
+  stsimpl.
+  erewrite bind_R; [| apply (consume_n_at _ 1 (c1 :: 69 :: rest)); [ exact H1 | reflexivity | cbn [List.length]; lia ] ].
+  stsimpl. replace (p + 1 + 1) with (p + 2) by lia.
+  rewrite bind_eof. stsimpl. rwf (p + 2 >=? L). cbn [hd0 Z.eqb].
+  rewrite bind_gets. stsimpl. cbn [Z.eqb negb]. rewrite Hop.
+  unfold op_okb in Hok. apply andb_prop in Hok. destruct Hok as [Hok Hli].
+  apply andb_prop in Hok. destruct Hok as [Hlow Hcv].
+  apply negb_true_iff in Hli. apply negb_true_iff in Hcv. rewrite Hli, Hcv.
+  reflexivity.
+Qed.
+
+Lemma nested_end_op : forall k p x lv c0 c1 nm rest,
+  At p (c0 :: c1 :: 69 :: rest) -> find_op ops c0 c1 = Some nm -> op_okb c0 c1 = true ->
+  run s 0 (S (S (S k))) (LNested 0) (NS p (Some x) lv false) =
+  R 0 (NS (p + 2) (Some (((x ++ str "::") ++ str "operator") ++ nm)) lv false).
+Proof.
+  intros k p x lv c0 c1 nm rest H Hop Hok.
+  change (run s 0 (S (S (S k))) (LNested 0)) with (nested_loop s 0 (run s 0 (S (S k))) 0).
+  assert (Hlow : islower c0 = true).
+  { unfold op_okb in Hok. apply andb_prop in Hok. destruct Hok as [Hok _].
+    apply andb_prop in Hok. tauto. }
+  assert (Hr : 97 <= c0 <= 122) by (unfold islower in Hlow; lia).
+  unfold nested_loop. unfold NS at 1.
+  erewrite bind_R; [| apply (curr_at _ (c0 :: c1 :: 69 :: rest)); [ exact H | reflexivity ] ].
+  rewrite bind_eof. stsimpl. pose proof (At_lt _ _ _ H). rwf (p >=? L). cbn [hd0]. chs. cbn [Z.eqb].
+  rwf (c0 =? 69). cbn [orb negb].
+  erewrite bind_R; [| apply (peek1_at _ c0 (c1 :: 69 :: rest)); [ exact H | reflexivity ] ].
+  rwf (c0 =? 68). rwf (c0 =? 67). cbn [andb orb]. rwf (c0 =? 85). rewrite Hlow. cbn [orb].
+  (* dd_unqualified_name on an operator *)
+  assert (Hu : run s 0 (S (S k)) FUnqualifiedName (NS p (Some x) lv false) =
+               R 0 (NS (p + 2) (Some (((x ++ str "::") ++ str "operator") ++ nm)) lv false)).
+  { change (run s 0 (S (S k)) FUnqualifiedName) with (dd_unqualified_name s 0 (run s 0 (S k))).
+    unfold dd_unqualified_name. unfold NS at 1.
+    erewrite bind_R; [| apply (curr_at _ (c0 :: c1 :: 69 :: rest)); [ exact H | reflexivity ] ].
+    erewrite bind_R; [| apply (peek1_at _ c0 (c1 :: 69 :: rest)); [ exact H | reflexivity ] ].
+    rewrite bind_eof. stsimpl. rwf (p >=? L). cbn [hd0]. chs. cbn [Z.eqb].
+    rwf (c0 =? 67). rwf (c0 =? 68). cbn [orb]. rwf (c0 =? 85). rewrite Hlow.
+    fold (NS p (Some x) lv false).
+    erewrite bind_R; [| apply (operator_at k p x lv c0 c1 nm rest); assumption ].
+    unfold NS at 1.
+    pose proof (At_cons _ _ _ (At_cons _ _ _ H)) as H2. replace (p + 1 + 1) with (p + 2) in H2 by lia.
+    erewrite bind_R; [| apply (curr_at _ (69 :: rest)); [ exact H2 | reflexivity ] ].
+    cbn [hd0]. reflexivity. }
+  fold (NS p (Some x) lv false). erewrite bind_R; [| exact Hu ].
+  apply (nested_end_plain (S k) _ _ lv false rest).
+  pose proof (At_cons _ _ _ (At_cons _ _ _ H)) as H2. replace (p + 1 + 1) with (p + 2) in H2 by lia. exact H2.
+Qed.
+
+(* ---- builtin parameter types *)
+Definition is_builtin (c : Z) : bool := existsb (Z.eqb c) builtin_types.
+
+Lemma builtin_facts : forall c, is_builtin c = true ->
+  strchr_set (str "rVK") c = false /\ strchr_set (str "PROCG") c = false /\
+  (c =? ch "F") = false /\ (c =? ch "T") = false /\ (c =? ch "A") = false /\ (c =? ch "M") = false /\
+  (c =? ch "D") = false /\ (c =? ch "S") = false /\ (c =? ch "u") = false /\ (c =? ch "U") = false /\
+  (c =? ch "I") = false /\ (isdigit c || (c =? ch "N") || (c =? ch "Z")) = false /\
+  strchr_set (str "E.@") c = false /\ c <> 36.
+Proof.
+  intros c H. unfold is_builtin in H. cbn in H.
+  repeat (apply orb_prop in H; destruct H as [H | H]); try discriminate;
+    apply Z.eqb_eq in H; subst c; repeat split; try reflexivity; discriminate.
+Qed.
+
+Lemma type_builtin : forall k p o lv fnm c rest,
+  At p (c :: rest) -> is_builtin c = true ->
+  run s 0 (S (S k)) FType (NS p o lv fnm) = R 0 (NS (p + 1) o lv fnm).
+Proof.
+  intros k p o lv fnm c rest H Hb.
+  destruct (builtin_facts c Hb) as [F1 [F2 [F3 [F4 [F5 [F6 [F7 [F8 [F9 [F10 [F11 [F12 [F13 F14]]]]]]]]]]]]].
+  change (run s 0 (S (S k)) FType) with (dd_type (run s 0 (S k))).
+  unfold dd_type, NS. pose proof (At_lt _ _ _ H).
+  rewrite bind_eof. stsimpl. rwf (p >=? L). cbn [Z.eqb].
+  unfold inc_typ, inc_level. rewrite !bind_modify. stsimpl.
+  assert (Hl : run s 0 (S k) (LType (-1)) (mkst p L o (0 + 1) (lv + 1) 0 false fnm false false)
+               = R 0 (mkst (p + 1) L o (0 + 1) (lv + 1) 0 false fnm false false)).
+  { cbn [run body]. unfold type_loop.
+    rewrite bind_eof. stsimpl. rwf (p >=? L). cbn [Z.eqb].
+    erewrite bind_R; [| apply (curr_at _ (c :: rest)); [ exact H | reflexivity ] ].
+    cbn [hd0]. rewrite F1, F2, F3, F4, F5, F6, F7, F8, F9, F10, F11, F12.
+    unfold is_builtin in Hb. rewrite Hb. unfold consume.
+    erewrite bind_R; [| apply (consume_n_at _ 1 (c :: rest)); [ exact H | reflexivity | cbn [List.length]; lia ] ].
+    reflexivity. }
+  erewrite bind_R; [| exact Hl ].
+  unfold dec_level, dec_typ. rewrite !bind_modify. stsimpl. unfold ret.
+  replace (0 + 1 - 1) with 0 by lia. replace (lv + 1 - 1) with lv by lia. reflexivity.
+Qed.
+
+Lemma enc_types_builtin : forall params k p x,
+  At p params -> forallb is_builtin params = true ->
+  run s 0 (List.length params + S (S (S k))) LEncTypes (NS p (Some x) 1 false) =
+  R 0 (NS (p + Z.of_nat (List.length params)) (Some x) 1 false).
+Proof.
+  induction params as [| c ps IH]; intros k p x H Hb.
+  - cbn [List.length Nat.add]. cbn [run body]. unfold enc_types_loop, NS.
+    rewrite bind_eof. stsimpl. destruct H as [H0 [H1 H2]]. cbn [List.length] in H2.
+    rwt (p >=? L). 
+    erewrite bind_R; [| apply (curr_at _ []); [ split; [ exact H0 | split; [ exact H1 | exact H2 ] ] | reflexivity ] ].
+    cbn [Z.eqb orb]. replace (p + Z.of_nat 0) with p by lia. reflexivity.
+  - cbn [forallb] in Hb. apply andb_prop in Hb. destruct Hb as [Hc Hps].
+    destruct (builtin_facts c Hc) as [_ [_ [_ [_ [_ [_ [_ [_ [_ [_ [_ [_ [F13 _]]]]]]]]]]]]].
+    cbn [List.length Nat.add]. cbn [run body]. unfold enc_types_loop. unfold NS at 1.
+    pose proof (At_lt _ _ _ H).
+    rewrite bind_eof. stsimpl. rwf (p >=? L).
+    erewrite bind_R; [| apply (curr_at _ (c :: ps)); [ exact H | reflexivity ] ].
+    cbn [hd0 Z.eqb orb]. rewrite F13.
+    fold (NS p (Some x) 1 false).
+    replace (List.length ps + S (S (S k)))%nat with (S (S (List.length ps + S k))) by lia.
+    erewrite bind_R; [| apply (type_builtin _ p (Some x) 1 false c ps); assumption ].
+    cbn [Z.ltb Z.compare].
+    replace (S (S (List.length ps + S k))) with (List.length ps + S (S (S k)))%nat by lia.
+    rewrite (IH k (p + 1) x (At_cons _ _ _ H) Hps). f_equal. f_equal. lia.
+Qed.
+
+(* ---- the last component: plain / constructor / destructor / operator *)
+Inductive lastk := LPlain | LCtor (kd : Z) | LDtor (kd : Z) | LOp (c0 c1 : Z).
+Definition last_enc (l : lastk) : list Z :=
+  match l with LPlain => [] | LCtor kd => [67; kd] | LDtor kd => [68; kd] | LOp c0 c1 => [c0; c1] end.
+Definition last_okb (l : lastk) : bool :=
+  match l with
+  | LPlain => true
+  | LCtor kd | LDtor kd => isdigit kd
+  | LOp c0 c1 => op_okb c0 c1 && (isupper c1 || islower c1)
+                 && match find_op ops c0 c1 with Some _ => true | None => false end
+  end.
+Definition last_out (x : list Z) (l : lastk) : list Z :=
+  match l with
+  | LPlain => x
+  | LCtor _ => x ++ str "::" ++ last_segment x
+  | LDtor _ => x ++ str "::~" ++ last_segment x
+  | LOp c0 c1 => match find_op ops c0 c1 with
+                 | Some nm => ((x ++ str "::") ++ str "operator") ++ nm
+                 | None => x end
+  end.
+
+Lemma nested_end : forall l k p x lv rest,
+  At p (last_enc l ++ 69 :: rest) -> last_okb l = true ->
+  run s 0 (S (S (S k))) (LNested 0) (NS p (Some x) lv false) =
+  R 0 (NS (p + Z.of_nat (List.length (last_enc l))) (Some (last_out x l)) lv false).
+Proof.
+  intros l k p x lv rest H Hok. destruct l as [| kd | kd | c0 c1]; cbn [last_enc app List.length last_out] in *.
+  - replace (p + Z.of_nat 0) with p by lia. apply (nested_end_plain _ p _ lv false rest H).
+  - rewrite (nested_end_ctor (S k) p x lv 67 kd rest H (or_introl eq_refl) Hok). reflexivity.
+  - rewrite (nested_end_ctor (S k) p x lv 68 kd rest H (or_intror eq_refl) Hok). reflexivity.
+  - apply andb_prop in Hok. destruct Hok as [Hok Hf]. apply andb_prop in Hok. destruct Hok as [Hop _].
+    destruct (find_op ops c0 c1) as [nm |] eqn:E; [| discriminate ].
+    apply (nested_end_op k p x lv c0 c1 nm rest H E Hop).
+Qed.
+
+Lemma out_after_nonempty : forall cs x, out_after (Some x) false cs =
+  Some (x ++ List.concat (map (fun id => str "::" ++ id) cs)).
+Proof.
+  induction cs as [| id cs IH]; intros x; cbn [out_after map List.concat].
+  - rewrite app_nil_r. reflexivity.
+  - unfold sep_out, add_out. rewrite IH. rewrite <- !app_assoc. reflexivity.
+Qed.
+Definition join_sep (comps : list (list Z)) : list Z :=
+  match comps with [] => [] | a :: cs => a ++ List.concat (map (fun id => str "::" ++ id) cs) end.
+Lemma out_after_start : forall a cs, out_after None true (a :: cs) = Some (join_sep (a :: cs)).
+Proof. intros a cs. cbn [out_after sep_out add_out]. apply out_after_nonempty. Qed.
+
+(* dd_nested_name on  N <source-name>+ <last> E  *)
+Lemma nested_name_at : forall a cs l k p lv rest,
+  At p (78 :: srcs (a :: cs) ++ last_enc l ++ 69 :: rest) ->
+  Forall (fun id => ident_okb id = true) (a :: cs) -> last_okb l = true ->
+  no_dollar (srcs (a :: cs) ++ last_enc l ++ 69 :: rest) -> L <= INT_MAX ->
+  run s 0 (S (List.length (a :: cs) + S (S (S k)))) FNestedName (NS p None lv true) =
+  R 0 (NS (p + 1 + Z.of_nat (List.length (srcs (a :: cs))) + Z.of_nat (List.length (last_enc l)) + 1)
+          (Some (last_out (join_sep (a :: cs)) l)) lv false).
+Proof.
+  intros a cs l k p lv rest H Hok Hl Hnd HL.
+  set (comps := a :: cs) in *.
+  change (run s 0 (S (List.length comps + S (S (S k)))) FNestedName)
+    with (dd_nested_name s 0 (run s 0 (List.length comps + S (S (S k))))).
+  unfold dd_nested_name. unfold NS at 1. pose proof (At_lt _ _ _ H).
+  rewrite bind_eof. stsimpl. rwf (p >=? L). cbn [Z.eqb].
+  unfold expect at 1. unfold consume.
+  erewrite bind_R; [| apply (consume_n_at _ 1 (78 :: srcs comps ++ last_enc l ++ 69 :: rest));
+                       [ exact H | reflexivity | cbn [List.length]; lia ] ].
+  cbn [hd0]. chs. cbn [Z.eqb Pos.eqb]. stsimpl.
+  unfold inc_level. rewrite bind_modify. stsimpl.
+  apply At_cons in H.
+  (* the component loop, then the ending *)
+  assert (HB : hd0 (last_enc l ++ 69 :: rest) <> 66).
+  { destruct l as [| kd | kd | c0 c1]; cbn [last_enc app hd0]; try lia.
+    cbn [last_okb] in Hl. apply andb_prop in Hl. destruct Hl as [Hl _]. apply andb_prop in Hl. destruct Hl as [Hl _].
+    unfold op_okb in Hl. apply andb_prop in Hl. destruct Hl as [Hl _]. apply andb_prop in Hl. destruct Hl as [Hl _].
+    unfold islower in Hl. lia. }
+  fold (NS (p + 1) None (lv + 1) true).
+  erewrite bind_R.
+  2:{ rewrite (nested_comps comps (S (S k)) (p + 1) None (lv + 1) true (last_enc l ++ 69 :: rest)); try assumption.
+      unfold comps at 2 3. rewrite out_after_start. cbn [fnm_after].
+      apply (nested_end l k _ _ (lv + 1) rest); [| exact Hl ].
+      apply (At_app _ (srcs comps)). exact H. }
+  (* the closing E *)
+  apply (At_app _ (srcs comps)) in H. apply (At_app _ (last_enc l)) in H.
+  unfold expect. unfold consume. unfold NS at 1.
+  erewrite bind_R; [| apply (consume_n_at _ 1 (69 :: rest)); [ exact H | reflexivity | cbn [List.length]; lia ] ].
+  cbn [hd0]. chs. cbn [Z.eqb Pos.eqb]. stsimpl.
+  unfold dec_level. rewrite bind_modify. stsimpl. unfold ret, NS.
+  replace (lv + 1 - 1) with lv by lia. reflexivity.
+Qed.
+
+(* ---- dd_name / dd_encoding on the whole symbol *)
+Lemma encoding_at : forall a cs l params F,
+  s = str "_ZN" ++ srcs (a :: cs) ++ last_enc l ++ 69 :: params ->
+  Forall (fun id => ident_okb id = true) (a :: cs) -> last_okb l = true ->
+  forallb is_builtin params = true ->
+  no_dollar (srcs (a :: cs) ++ last_enc l ++ 69 :: params) -> L <= INT_MAX ->
+  (List.length (a :: cs) + List.length params + 8 <= F)%nat ->
+  run s 0 F FEncoding (st0 L) = R 0 (NS L (Some (last_out (join_sep (a :: cs)) l)) 0 false).
+Proof.
+  intros a cs l params F Hs Hok Hl Hpar Hnd HL HF.
+  set (comps := a :: cs) in *.
+  set (body := srcs comps ++ last_enc l ++ 69 :: params) in *.
+  assert (H0 : At 0 (95 :: 90 :: 78 :: body)).
+  { unfold At. split; [ lia |]. split; [ unfold suffix; cbn [Z.add Z.to_nat skipn]; rewrite Hs; reflexivity |].
+    unfold flen. rewrite Hs. cbn [str app List.length]. lia. }
+  pose proof (At_cons _ _ _ H0) as H1. pose proof (At_cons _ _ _ H1) as H2. cbn [Z.add Pos.add] in H1, H2.
+  assert (HLen : L = 3 + Z.of_nat (List.length (srcs comps)) + Z.of_nat (List.length (last_enc l)) + 1
+                     + Z.of_nat (List.length params)).
+  { destruct H0 as [_ [_ HH]]. cbn [List.length] in HH. unfold body in HH.
+    repeat rewrite app_length in HH. cbn [List.length] in HH. lia. }
+  destruct F as [| F1]; [ lia |]. destruct F1 as [| F2]; [ lia |]. destruct F2 as [| F3]; [ lia |].
+  change (run s 0 (S (S (S F3))) FEncoding) with (dd_encoding s 0 (run s 0 (S (S F3)))).
+  unfold dd_encoding, st0.
+  pose proof (At_lt _ _ _ H0) as HL0.
+  rewrite bind_eof. stsimpl. rwf (0 >=? L). cbn [Z.eqb].
+  rewrite bind_gets. stsimpl. cbn [Z.eqb].
+  erewrite bind_R; [| apply (consume_n_at _ 2 (95 :: 90 :: 78 :: body)); [ exact H0 | reflexivity | cbn [List.length]; lia ] ].
+  stsimpl. cbn [Z.add]. unfold inc_level. rewrite bind_modify. stsimpl. cbn [Z.add].
+  erewrite bind_R; [| apply (curr_at _ (78 :: body)); [ exact H2 | reflexivity ] ].
+  cbn [hd0]. chs. cbn [Z.eqb Pos.eqb orb].
+  (* dd_name -> dd_nested_name *)
+  assert (Hname : run s 0 (S (S F3)) FName (NS 2 None 1 true) =
+                  R 0 (NS (2 + 1 + Z.of_nat (List.length (srcs comps)) + Z.of_nat (List.length (last_enc l)) + 1)
+                          (Some (last_out (join_sep comps) l)) 1 false)).
+  { change (run s 0 (S (S F3)) FName) with (dd_name s 0 (run s 0 (S F3))).
+    unfold dd_name. unfold NS at 1.
+    erewrite bind_R; [| apply (curr_at _ (78 :: body)); [ exact H2 | reflexivity ] ].
+    pose proof (At_lt _ _ _ H2).
+    rewrite bind_eof. stsimpl. rwf (2 >=? L). cbn [hd0]. chs. cbn [Z.eqb Pos.eqb].
+    fold (NS 2 None 1 true).
+    replace (S F3) with (S (List.length comps + S (S (S (F3 - List.length comps - 3)))))%nat
+      by (cbn [List.length] in *; lia).
+    apply (nested_name_at a cs l _ 2 1 params); assumption. }
+  fold (NS 2 None 1 true). erewrite bind_R; [| exact Hname ].
+  cbn [Z.ltb Z.compare].
+  set (pe := 2 + 1 + Z.of_nat (List.length (srcs comps)) + Z.of_nat (List.length (last_enc l)) + 1).
+  assert (Hpe : At pe params).
+  { unfold pe. replace (2 + 1 + Z.of_nat (List.length (srcs comps)) + Z.of_nat (List.length (last_enc l)) + 1)
+      with (2 + 1 + Z.of_nat (List.length (srcs comps)) + Z.of_nat (List.length (last_enc l)) + Z.of_nat (List.length [69])) by (cbn [List.length]; lia).
+    apply (At_app _ [69] params). apply (At_app _ (last_enc l)). apply (At_app _ (srcs comps)).
+    apply At_cons in H2. exact H2. }
+  erewrite bind_R.
+  2:{ replace (S (S F3)) with (List.length params + S (S (S (F3 - List.length params - 1))))%nat
+        by (cbn [List.length] in *; lia).
+      apply (enc_types_builtin params _ pe _ Hpe Hpar). }
+  assert (HpeL : pe + Z.of_nat (List.length params) = L) by (unfold pe; lia).
+  rewrite HpeL.
+  assert (Hend : At L []).
+  { rewrite <- HpeL. replace params with (params ++ []) in Hpe by apply app_nil_r. apply (At_app _ params []). exact Hpe. }
+  unfold NS at 1.
+  erewrite bind_R; [| apply (curr_at _ []); [ exact Hend | reflexivity ] ].
+  cbn [hd0]. chs. cbn [Z.eqb]. rewrite bind_ret.
+  erewrite bind_R; [| apply (curr_at _ []); [ exact Hend | reflexivity ] ].
+  cbn [hd0 Z.eqb]. rewrite bind_ret.
+  unfold dec_level. rewrite bind_modify. stsimpl. reflexivity.
+Qed.
+End Walk.
+
+(* ================================================================ the formal mangler and the theorem *)
+Record decl := mkdecl { d_first : list Z; d_rest : list (list Z); d_last : lastk; d_params : list Z }.
+Definition scopes (d : decl) : list (list Z) := d_first d :: d_rest d.
+(* _Z N <source-name>+ [C<n> | D<n> | <operator code>] E <builtin type>*  *)
+Definition mangle (d : decl) : list Z :=
+  str "_ZN" ++ srcs (scopes d) ++ last_enc (d_last d) ++ 69 :: d_params d.
+Definition decl_okb (d : decl) : bool :=
+  forallb ident_okb (scopes d) && last_okb (d_last d) && forallb is_builtin (d_params d)
+  && (Z.of_nat (List.length (mangle d)) <=? INT_MAX).
+
+Definition op_name (c0 c1 : Z) : list Z := match find_op ops c0 c1 with Some nm => nm | None => [] end.
+(* the qualified function name without parameter list *)
+Definition simple_name (d : decl) : list Z :=
+  join_sep (scopes d) ++
+  match d_last d with
+  | LPlain => []
+  | LCtor _ => str "::" ++ last (scopes d) []
+  | LDtor _ => str "::~" ++ last (scopes d) []
+  | LOp c0 c1 => str "::operator" ++ op_name c0 c1
+  end.
+
+(* ---- strrchr(new, ':') finds the last component *)
+Lemma rindex_app : forall c a b i acc,
+  rindex_of c (a ++ b) i acc = rindex_of c b (i + Z.of_nat (List.length a)) (rindex_of c a i acc).
+Proof.
+  induction a as [| x a IH]; intros b i acc; cbn [app rindex_of List.length].
+  - replace (i + Z.of_nat 0) with i by lia. reflexivity.
+  - rewrite IH. f_equal. lia.
+Qed.
+Lemma rindex_none : forall c a i acc, Forall (fun x => x <> c) a -> rindex_of c a i acc = acc.
+Proof.
+  induction a as [| x a IH]; intros i acc H; cbn [rindex_of]; [ reflexivity |].
+  inversion H; subst. rwf (x =? c). apply IH. assumption.
+Qed.
+Definition no_colon (id : list Z) : Prop := Forall (fun x => x <> 58) id.
+Lemma ident_no_colon : forall id, ident_okb id = true -> no_colon id.
+Proof.
+  intros id H. unfold ident_okb in H. apply andb_prop in H. destruct H as [H _].
+  apply andb_prop in H. destruct H as [H _]. apply andb_prop in H. destruct H as [_ H].
+  rewrite forallb_forall in H. apply Forall_forall. intros x Hx. specialize (H x Hx).
+  unfold idchar, isdigit, isupper, islower in H. lia.
+Qed.
+
+Lemma last_segment_join : forall a cs, Forall no_colon (a :: cs) ->
+  last_segment (join_sep (a :: cs)) = last (a :: cs) [].
+Proof.
+  intros a cs. revert a. induction cs as [| z cs' IH] using rev_ind; intros a H.
+  - cbn [join_sep map List.concat last]. rewrite app_nil_r. unfold last_segment. change (ch ":") with 58.
+    inversion H; subst. rewrite rindex_none by assumption. reflexivity.
+  - change (a :: cs' ++ [z]) with ((a :: cs') ++ [z]) in *.
+    rewrite last_last.
+    assert (Hz : no_colon z).
+    { apply Forall_app in H. destruct H as [_ H]. inversion H; assumption. }
+    change ((a :: cs') ++ [z]) with (a :: cs' ++ [z]).
+    cbn [join_sep]. rewrite map_app, concat_app. cbn [map List.concat]. rewrite app_nil_r.
+    set (P := a ++ List.concat (map (fun id => str "::" ++ id) cs')).
+    replace (a ++ List.concat (map (fun id => str "::" ++ id) cs') ++ str "::" ++ z)
+      with (P ++ [58; 58] ++ z) by (unfold P; rewrite <- app_assoc; reflexivity).
+    unfold last_segment. change (ch ":") with 58.
+    rewrite rindex_app, rindex_app. rewrite (rindex_none 58 z) by assumption.
+    cbn [rindex_of Z.eqb Pos.eqb List.length].
+    replace (Z.to_nat (0 + Z.of_nat (List.length P) + 1 + 1)) with (List.length P + 2)%nat by lia.
+    rewrite skipn_app. rewrite skipn_all2 by lia.
+    replace (List.length P + 2 - List.length P)%nat with 2%nat by lia. reflexivity.
+Qed.
+
+(* ---- no '$' in a mangled name of the subset *)
+Lemma no_dollar_digits : forall ds, Forall (fun c => isdigit c = true) ds -> no_dollar ds.
+Proof. intros ds H. eapply Forall_impl; [| exact H ]. intros c Hc. apply isdigit_range in Hc. lia. Qed.
+Lemma no_dollar_ident : forall id, ident_okb id = true -> no_dollar id.
+Proof.
+  intros id H. unfold ident_okb in H. apply andb_prop in H. destruct H as [H _].
+  apply andb_prop in H. destruct H as [H _]. apply andb_prop in H. destruct H as [_ H].
+  rewrite forallb_forall in H. apply Forall_forall. intros x Hx. specialize (H x Hx).
+  unfold idchar, isdigit, isupper, islower in H. lia.
+Qed.
+Lemma no_dollar_src : forall id, ident_okb id = true -> no_dollar (src id).
+Proof.
+  intros id H. unfold src. apply Forall_app. split; [| apply no_dollar_ident; exact H ].
+  destruct (dec_spec _ (ident_len id H)) as [ds [E1 [E2 _]]]. rewrite E1. apply no_dollar_digits. exact E2.
+Qed.
+Lemma no_dollar_srcs : forall cs, Forall (fun id => ident_okb id = true) cs -> no_dollar (srcs cs).
+Proof.
+  induction cs as [| id cs IH]; intros H; [ constructor |].
+  inversion H; subst. unfold srcs. cbn [map List.concat]. apply Forall_app. split.
+  - apply no_dollar_src. assumption.
+  - apply IH. assumption.
+Qed.
+Lemma no_dollar_last : forall l, last_okb l = true -> no_dollar (last_enc l).
+Proof.
+  intros l H. destruct l as [| kd | kd | c0 c1]; cbn [last_enc last_okb] in *.
+  - constructor.
+  - apply isdigit_range in H. repeat constructor; lia.
+  - apply isdigit_range in H. repeat constructor; lia.
+  - apply andb_prop in H. destruct H as [H _]. apply andb_prop in H. destruct H as [H1 H2].
+    unfold op_okb in H1. apply andb_prop in H1. destruct H1 as [H1 _]. apply andb_prop in H1. destruct H1 as [H1 _].
+    unfold islower, isupper in *. repeat constructor; lia.
+Qed.
+Lemma no_dollar_params : forall ps, forallb is_builtin ps = true -> no_dollar ps.
+Proof.
+  intros ps H. rewrite forallb_forall in H. apply Forall_forall. intros x Hx.
+  destruct (builtin_facts x (H x Hx)) as [_ [_ [_ [_ [_ [_ [_ [_ [_ [_ [_ [_ [_ F]]]]]]]]]]]]]. exact F.
+Qed.
+
+Lemma srcs_length : forall cs, Forall (fun id => ident_okb id = true) cs ->
+  (List.length cs <= List.length (srcs cs))%nat.
+Proof.
+  induction cs as [| id cs IH]; intros H; [ cbn; lia |].
+  inversion H; subst. unfold srcs in *. cbn [map List.concat List.length]. rewrite app_length.
+  specialize (IH ltac:(assumption)). pose proof (ident_len id ltac:(assumption)).
+  assert (1 <= List.length (src id))%nat by (unfold src; rewrite app_length; lia).
+  lia.
+Qed.
+
+Theorem roundtrip : forall d, decl_okb d = true -> demangle (mangle d) = Str (last_out (join_sep (scopes d)) (d_last d)).
+Proof.
+  intros d H. unfold decl_okb in H.
+  apply andb_prop in H. destruct H as [H HL]. apply andb_prop in H. destruct H as [H Hpar].
+  apply andb_prop in H. destruct H as [Hids Hl].
+  assert (Hok : Forall (fun id => ident_okb id = true) (scopes d)).
+  { apply Forall_forall. rewrite forallb_forall in Hids. exact Hids. }
+  set (s := mangle d) in *.
+  assert (Hs : s = str "_ZN" ++ srcs (d_first d :: d_rest d) ++ last_enc (d_last d) ++ 69 :: d_params d) by reflexivity.
+  assert (Hnd : no_dollar (srcs (d_first d :: d_rest d) ++ last_enc (d_last d) ++ 69 :: d_params d)).
+  { apply Forall_app. split; [ apply no_dollar_srcs; exact Hok |].
+    apply Forall_app. split; [ apply no_dollar_last; exact Hl |].
+    constructor; [ lia | apply no_dollar_params; exact Hpar ]. }
+  assert (HLs : flen s <= INT_MAX) by (unfold flen; apply Z.leb_le; exact HL).
+  assert (Hfuel : (List.length (d_first d :: d_rest d) + List.length (d_params d) + 8 <= fuel_of s)%nat).
+  { unfold fuel_of. rewrite Hs. cbn [str]. repeat rewrite app_length. cbn [List.length].
+    pose proof (srcs_length _ Hok). unfold scopes in *. cbn [List.length] in *. lia. }
+  pose proof (encoding_at s (d_first d) (d_rest d) (d_last d) (d_params d) (fuel_of s) Hs Hok Hl Hpar Hnd HLs Hfuel) as E.
+  unfold demangle, demangle_fuel.
+  assert (Hpre : prefix_of prefix_str s = false) by (rewrite Hs; reflexivity).
+  assert (Hm : mangled_form s = true) by (unfold mangled_form, stripped; rewrite Hpre, Hs; reflexivity).
+  rewrite Hm, Hpre. cbn [negb].
+  replace (Z.of_nat (List.length s) - 0) with (flen s) by (unfold flen; lia).
+  rewrite E. cbn [of_res]. unfold NS. stsimpl. cbn [Z.ltb Z.compare Z.eqb orb negb].
+  rwt (flen s >=? flen s). reflexivity.
+Qed.
+
+(* the readable form: <scope>::...::<last scope>[::<last scope> | ::~<last scope> | ::operator<op>] *)
+Theorem roundtrip_simple_name : forall d, decl_okb d = true -> demangle (mangle d) = Str (simple_name d).
+Proof.
+  intros d H. rewrite (roundtrip d H). f_equal. unfold simple_name.
+  assert (Hnc : Forall no_colon (scopes d)).
+  { unfold decl_okb in H. apply andb_prop in H. destruct H as [H _]. apply andb_prop in H. destruct H as [H _].
+    apply andb_prop in H. destruct H as [H _]. rewrite forallb_forall in H. apply Forall_forall.
+    intros x Hx. apply ident_no_colon. apply H. exact Hx. }
+  assert (Hl : last_okb (d_last d) = true).
+  { unfold decl_okb in H. apply andb_prop in H. destruct H as [H _]. apply andb_prop in H. destruct H as [H _].
+    apply andb_prop in H. destruct H as [_ H]. exact H. }
+  destruct (d_last d) as [| kd | kd | c0 c1]; cbn [last_out].
+  - rewrite app_nil_r. reflexivity.
+  - unfold scopes in *. rewrite (last_segment_join _ _ Hnc). reflexivity.
+  - unfold scopes in *. rewrite (last_segment_join _ _ Hnc). reflexivity.
+  - unfold op_name. destruct (find_op ops c0 c1) as [nm |] eqn:E.
+    + rewrite <- !app_assoc. reflexivity.
+    + exfalso. cbn [last_okb] in Hl. rewrite E in Hl. rewrite andb_false_r in Hl. discriminate.
+Qed.
+
+(* non-vacuity: the guard holds on ordinary declarations and the result is what one expects *)
+Definition d_ctor : decl := mkdecl (str "ns") [str "Cls"] (LCtor (ch "1")) (str "i").
+Definition d_dtor : decl := mkdecl (str "v8") [str "internal"; str "Heap"] (LDtor (ch "0")) (str "v").
+Definition d_op : decl := mkdecl (str "ns") [str "Cls"] (LOp (ch "p") (ch "L")) (str "i").
+Definition d_fn : decl := mkdecl (str "ABC") [str "foo"] LPlain (str "v").
+Example roundtrip_examples :
+  decl_okb d_ctor = true /\ mangle d_ctor = str "_ZN2ns3ClsC1Ei" /\ simple_name d_ctor = str "ns::Cls::Cls" /\
+  decl_okb d_dtor = true /\ mangle d_dtor = str "_ZN2v88internal4HeapD0Ev" /\
+    simple_name d_dtor = str "v8::internal::Heap::~Heap" /\
+  decl_okb d_op = true /\ mangle d_op = str "_ZN2ns3ClspLEi" /\ simple_name d_op = str "ns::Cls::operator+=" /\
+  decl_okb d_fn = true /\ mangle d_fn = str "_ZN3ABC3fooEv" /\ simple_name d_fn = str "ABC::foo".
+Proof. vm_compute. repeat split; reflexivity. Qed.
